@@ -253,6 +253,7 @@ class C17(common.Check):
             probes["real_ctx"] = 1
         w = traces["async"].world
         return {"viol": viol, "digest": traces["sync"].world.digest() + w.digest(), "key": common.key_hash(case),
+                "sched_key": common.key_hash(traces["async"].schedule) if traces["async"].schedule else None,
                 "fired": {"seg": w.stats.get("seg", 0) + traces["sync"].world.stats.get("seg", 0), "choice_points": w.stats.get("choice_points", 0),
                           "clk_skew": int(bool(case["dc"]["skew_ticks"]))},
                 "probes": probes, "vtime_ns": w.stats.get("vtime_ns", 0)}
